@@ -69,9 +69,16 @@ def _check_faces(g, rows_expected, n_node):
     real = fn[fn != F]
     if real.size and (real.min() < 0 or real.max() >= n_node):
         return f"decoded node index out of range: {fn.tolist()} with {n_node} nodes"
-    lo = g.node_lon.values
-    if np.any(lo > 180 + 1e-9) or np.any(lo < -180 - 1e-9):
-        return f"node_lon out of [-180,180]: {lo.tolist()}"
+    return _check_lon_range(g)
+
+
+def _check_lon_range(g):
+    """every longitude variable the grid holds (node, face and edge centres, supplied or derived) is reported in [-180, 180]"""
+    for name in ("node_lon", "face_lon", "edge_lon"):
+        if name in g._ds:
+            lo = np.asarray(g._ds[name].values, dtype=float)
+            if np.any(lo > 180 + 1e-9) or np.any(lo < -180 - 1e-9):
+                return f"{name} out of [-180,180]: {lo.tolist()}"
     return None
 
 
@@ -319,7 +326,7 @@ def make_scrip(oid, lon_range, tiers=("quick", "thorough"), sizes=None, cost=5):
                         return f"SCRIP cell {f} corner {j}: decoded position ({gl},{gt}), the source has ({lon[i]},{lat[i]})"
         except Exception as e:
             return f"SCRIP source raised {type(e).__name__}: {str(e)[:150]}"
-        return None
+        return _check_lon_range(g)
 
     return Obligation(oid, f"SCRIP dataset (longitudes in {'0..360' if lon_range == '360' else '-180..180'}) -> Grid", setup, run, replay, exact=True,
                       functions=["Grid.from_dataset", "io.utils._parse_grid_type", "_scrip._read_scrip", "_scrip._to_ugrid", "connectivity._replace_fill_values",
@@ -400,7 +407,7 @@ def make_face_vertices(oid, tiers=("quick", "thorough"), sizes=None, cost=5):
                         return f"from_face_vertices face {f} vertex {j}: decoded position ({gl},{gt}), the source has ({lon[i]},{lat[i]})"
         except Exception as e:
             return f"from_face_vertices raised {type(e).__name__}: {str(e)[:150]}"
-        return None
+        return _check_lon_range(g)
 
     return Obligation(oid, "face-vertex arrays -> Grid", setup, run, replay, exact=True,
                       functions=["Grid.from_face_vertices", "_vertices._read_face_vertices", "Grid.__init__"],
@@ -477,7 +484,7 @@ def make_icon(oid, tiers=("quick", "thorough")):
                 return f"ICON source (missing-neighbour marker {miss}): {prop} decoded as {got.tolist()}, the source describes {exp.tolist()}"
         if not np.allclose(((g.node_lon.values - np.degrees(v["vlon"])) + 180) % 360 - 180, 0, atol=1e-9) or np.any(np.abs(g.node_lon.values) > 180 + 1e-9):
             return f"ICON source: node_lon {g.node_lon.values.tolist()} for vlon (deg) {np.degrees(v['vlon']).tolist()}"
-        return None
+        return _check_lon_range(g)
 
     return Obligation(oid, "ICON dataset -> Grid", setup, run, replay, exact=True,
                       functions=["Grid.from_dataset", "io.utils._parse_grid_type", "_icon._read_icon", "_icon._primal_to_ugrid", "coordinates._set_desired_longitude_range"],
@@ -557,14 +564,14 @@ def make_geos(oid, tiers=("quick", "thorough")):
                     ok = any(all(same(got[c], sq[c]) for c in range(4)) for seq in (ring, ring[::-1]) for r0 in range(4) for sq in [seq[r0:] + seq[:r0]])
                     if not ok:
                         return f"GEOS-CS cell ({t},{i},{j}): face {k} has corners {got}, the cell's corners are {ring}"
-        return None
+        return _check_lon_range(g)
 
     return Obligation(oid, "GEOS cube-sphere dataset -> Grid", setup, run, replay, exact=True,
                       functions=["Grid.from_dataset", "io.utils._parse_grid_type", "_geos._read_geos_cs", "coordinates._set_desired_longitude_range"],
                       bounds="2 tiles of 2 x 3 cells (3 x 4 corners), every corner / centre position symbolic", tiers=tiers)
 
 
-def make_esmf(oid, si_case, tiers=("quick", "thorough")):
+def make_esmf(oid, si_case, tiers=("quick", "thorough"), dtype="int32"):
     n_face, n_max, n_node = 2, 4, 6
     base = {"absent": 1, "0": 0, "1": 1}[si_case]
 
@@ -589,8 +596,9 @@ def make_esmf(oid, si_case, tiers=("quick", "thorough")):
         at = {"long_name": "Node indices that define the element connectivity"}
         if si_case != "absent":
             at["start_index"] = int(si_case)
-        ds["elementConn"] = symxr.DataArray(symnp.SArr.new([mk(x) for r in src for x in r], (n_face, n_max), None, symnp.int32),
+        ds["elementConn"] = symxr.DataArray(symnp.SArr.new([mk(x) for r in src for x in r], (n_face, n_max), None, symnp.int32 if dtype == "int32" else symnp.int64),
                                             dims=["elementCount", "maxNodePElement"], attrs=at)
+        conn_before = ds["elementConn"].data.flat_list()
         ds["numElementConn"] = symxr.DataArray(symnp.SArr.new([mk(x) for x in nf], (n_face,), None, symnp.int32), dims=["elementCount"])
         Grid = world().get("uxarray.grid.grid", "Grid")
         g = Grid.from_dataset(ds)
@@ -602,6 +610,8 @@ def make_esmf(oid, si_case, tiers=("quick", "thorough")):
             *[z3.And(_lon_ok(_zr(g.node_lon.values[i]), lon[i]), _zr(g.node_lat.values[i]) == lat[i]) for i in range(n_node)],
             *[z3.And(_lon_ok(_zr(g.face_lon.values[i]), clon[i]), _zr(g.face_lat.values[i]) == clat[i]) for i in range(n_face)]))
         ctx.prove("n_nodes_per_face carried", z3.And(*[sc.z(g.n_nodes_per_face.values[f]) == nf[f] for f in range(n_face)]))
+        ctx.prove("the source dataset's elementConn is left as it was (opening the same dataset again gives the same grid)",
+                  z3.And(*[sc.z(a) == sc.z(b) for a, b in zip(ds["elementConn"].data.flat_list(), conn_before)]))
 
     def replay(v):
         import xarray as xr
@@ -613,17 +623,22 @@ def make_esmf(oid, si_case, tiers=("quick", "thorough")):
         at = {"long_name": "x"}
         if si_case != "absent":
             at["start_index"] = int(si_case)
-        ds["elementConn"] = xr.DataArray(np.array(rows, dtype=np.int32), dims=["elementCount", "maxNodePElement"], attrs=at)
+        ds["elementConn"] = xr.DataArray(np.array(rows, dtype=np.int32 if dtype == "int32" else np.int64), dims=["elementCount", "maxNodePElement"], attrs=at)
         ds["numElementConn"] = xr.DataArray(np.array(v["fn_n"], dtype=np.int32), dims=["elementCount"])
         g = ux.Grid.from_dataset(ds)
         r = _check_faces(g, v["fn"], n_node)
         if r:
             return r + f" [ESMF start_index={si_case} elementConn {rows}]"
+        if not np.array_equal(ds["elementConn"].values, np.array(rows)):
+            return f"ESMF reader modified the source dataset's elementConn ({dtype}): {rows} -> {ds['elementConn'].values.tolist()}"
+        r = _check_faces(ux.Grid.from_dataset(ds), v["fn"], n_node)
+        if r:
+            return "second opening of the same ESMF dataset: " + r
         if not np.allclose((g.face_lon.values - np.array(v["clon"])) % 360, 0, atol=1e-9) and not np.allclose((g.face_lon.values - np.array(v["clon"]) + 180) % 360 - 180, 0, atol=1e-9):
             return "centerCoords not carried"
         return None
 
-    return Obligation(oid, f"ESMF dataset -> Grid, start_index attribute {si_case}", setup, run, replay, exact=True,
+    return Obligation(oid, f"ESMF dataset -> Grid, start_index attribute {si_case}, {dtype} connectivity", setup, run, replay, exact=True,
                       functions=["Grid.from_dataset", "io.utils._parse_grid_type", "_esmf._read_esmf"],
                       bounds="2 faces <= 4 corners, arbitrary garbage in padded slots, nodes < 6", tiers=tiers)
 
@@ -995,6 +1010,7 @@ def obligations(tier):
                                      ("0", "minus1", "float64"), ("1", "minus1", "int64"), ("0", "std", "int64")]
             obs.append(make_ugrid(f"C01.ugrid.si_{si}.fill_{fc}.{dt}", si, fc, dt, tiers=("quick", "thorough") if quick else ("thorough",)))
     obs += [make_esmf(f"C01.esmf.si_{si}", si) for si in ("absent", "0", "1")]
+    obs += [make_esmf(f"C01.esmf.si_{si}.int64", si, dtype="int64") for si in ("absent", "1")]
     obs += [make_mpas("C01.mpas.primal", False), make_mpas("C01.mpas.dual", True)]
     obs += [make_exodus("C01.exodus.coord", "coord"), make_exodus("C01.exodus.coordxyz", "coordxyz"),
             make_exodus_blocks("C01.exodus.blocks.tri_quad", False), make_exodus_blocks("C01.exodus.blocks.quad_tri", True),
